@@ -31,7 +31,7 @@ ASSUMPTIONS = [
 ]
 FLOORS = {"c07_purity_checks": 2000, "c07_faults_injected": 1000, "c07_natural_failures": 150, "c07_retries_compared": 1000,
           "c07_repeat_calls_compared": 100, "c07_cases_with_citations": 40, "c07_bad_citation_failures": 100}
-MUST_REACH = ["AssemblyManager._deref_citations", "AssemblyManager._ref_citations", "AssemblyManager._generate_assembly"]
+MUST_REACH = ["AbstractVector.assemble", "AssemblyManager._deref_citations", "AssemblyManager._ref_citations", "AssemblyManager._generate_assembly"]
 BUDGET_S = {"quick": 1200, "thorough": 7200}
 EXHAUSTIVE = {"quick": False, "thorough": False}
 ENZYMES = ["BsaI", "BbsI", "BsmBI", "FokI", "BspQI", "BtgZI"]
